@@ -27,16 +27,19 @@ import (
 // key (remote, normalised local) with multicast/unspecified -> wildcard, and the documented
 // fallback of a concrete destination to the wildcard entry of the same remote.
 
-type pcfg struct{ Depth int }
+type pcfg struct {
+	Depth int
+	Delay int // bound on non-default choices among runnable library threads (0 = unbounded)
+}
 
 func (c pcfg) String() string {
-	return fmt.Sprintf("udp-server address pairs (wildcard listener, control-message destinations, NewConn) depth=%d", c.Depth)
+	return fmt.Sprintf("udp-server address pairs (wildcard listener, control-message destinations, NewConn) depth=%d delays<=%d", c.Depth, c.Delay)
 }
 
 func pairsScenario(c pcfg) *mcx.Scenario {
 	return &mcx.Scenario{
 		Name:   c.String(),
-		Bounds: mcx.Bounds{Preempt: 0, Env: -1, Select: 0},
+		Bounds: mcx.Bounds{Preempt: 0, Env: -1, Select: 0, Delay: c.Delay},
 		Opt:    vrt.Options{MaxSteps: 600000},
 		Body: func(s *vrt.Sched) func() (string, []mcx.Finding) {
 			var hist []string
@@ -233,5 +236,8 @@ func pairsScenario(c pcfg) *mcx.Scenario {
 }
 
 func addPairs(r *ev.Run, scs *[]*mcx.Scenario) {
-	*scs = append(*scs, pairsScenario(pcfg{Depth: ev.Pick(r, 4, 5)}))
+	*scs = append(*scs, pairsScenario(pcfg{Depth: 4}))
+	if r.Thorough() {
+		*scs = append(*scs, pairsScenario(pcfg{Depth: 5, Delay: 1}))
+	}
 }
